@@ -233,8 +233,8 @@ func newFramerSys(meta Meta, seed int64, init any) (Sys, error) {
 				}
 				if errors.Is(err, os.ErrDeadlineExceeded) { // the deadline passed: report it, the stream goes on
 					if !s.emit(r) {
-					return
-				}
+						return
+					}
 
 					continue
 				}
@@ -243,8 +243,8 @@ func newFramerSys(meta Meta, seed int64, init any) (Sys, error) {
 					if zero >= 3 {
 						r.spin = true
 						if !s.emit(r) {
-					return
-				}
+							return
+						}
 
 						return
 					}
